@@ -38,6 +38,14 @@ func NumUnchoking() int {
 
 const reqQ = 250
 
+// maxRequestLength is the largest block we are willing to serve.
+const maxRequestLength = 128 * 1024
+
+// maxPiecesUnknown bounds the piece indices we accept from a peer while
+// the metadata, and hence the number of pieces, is not known yet: the
+// metadata is at most 128 MiB and holds 20 bytes per piece.
+const maxPiecesUnknown = 128 * 1024 * 1024 / 20
+
 type Requested struct {
 	Index, Begin, Length uint32
 }
@@ -851,7 +859,8 @@ func handleMessage(peer *Peer, m protocol.Message) error {
 		writeEvent(peer, TorPeerBitmap{peer, peer.bitmap.Copy(), true})
 		maybeInterested(peer)
 	case protocol.Request:
-		if peer.Info == nil || peer.amUnchoking == 0 {
+		if peer.Info == nil || peer.amUnchoking == 0 ||
+			m.Length > maxRequestLength {
 			return reject(peer, m.Index, m.Begin, m.Length)
 		}
 		if len(peer.requested) >= reqQ {
